@@ -436,6 +436,10 @@ pub struct Generator<'a> {
     /// and sampling.
     prev_tokens: Vec<u32>,
 
+    /// Number of tokens at the start of `input_ids` which have already been
+    /// added to `prev_tokens`.
+    recorded_input_ids: usize,
+
     /// Self-attention key-value cache. This is extended on each iteration.
     kv_cache: Vec<KvCache>,
 
@@ -611,6 +615,7 @@ impl<'a> Generator<'a> {
             kv_cache,
             encoder_kv_cache,
             prev_tokens: Vec::new(),
+            recorded_input_ids: 0,
             sampler: Box::new(ArgMax::new()),
         };
 
@@ -659,6 +664,7 @@ impl<'a> Generator<'a> {
     /// [`append_prompt`](Self::append_prompt) instead.
     pub fn with_prompt(mut self, prompt: &[TokenId]) -> Self {
         self.input_ids = prompt.to_vec();
+        self.recorded_input_ids = 0;
         self
     }
 
@@ -680,6 +686,7 @@ impl<'a> Generator<'a> {
     /// been generated. In other words, it does not "rewind" the conversation.
     pub fn clear_prompt(&mut self) {
         self.input_ids.clear();
+        self.recorded_input_ids = 0;
     }
 
     /// Return the prompt that will be used for the next generation.
@@ -914,15 +921,18 @@ impl<'a> Generator<'a> {
             cache_entry.cache = Some(kv_cache);
         }
 
-        // Save prompt for use in logit filters.
-        if self.prev_tokens.is_empty() {
-            self.prev_tokens.extend(self.input_ids.iter());
-        }
+        // Save prompt for use in logit filters. Tokens which were passed to the
+        // model in an earlier run (if the model has no KV cache) or sampled
+        // from its output have already been saved.
+        self.prev_tokens
+            .extend(&self.input_ids[self.recorded_input_ids..]);
+        self.recorded_input_ids = self.input_ids.len();
 
         // Clear the prompt for the next generation.
         if !self.kv_cache.is_empty() {
             self.input_offset += self.input_ids.len();
             self.input_ids.clear();
+            self.recorded_input_ids = 0;
         }
 
         if generate_logits {
@@ -971,6 +981,7 @@ impl<'a> Generator<'a> {
         // Append token to prompt for next generation.
         self.prev_tokens.push(next_id);
         self.input_ids.push(next_id);
+        self.recorded_input_ids += 1;
 
         Ok(next_id)
     }
@@ -1560,6 +1571,36 @@ mod tests {
         let inputs = model.get_inputs(2, input_id).unwrap();
         let inputs: NdTensor<i32, 2> = inputs.try_into().unwrap();
         assert_eq!(inputs, NdTensor::from([[1, 101, 102]]));
+
+        Ok(())
+    }
+
+    #[test]
+    fn test_prev_tokens_includes_appended_prompt() -> Result<(), Box<dyn Error>> {
+        for kv_cache_type in [Some(KvCacheType::Decoder), None] {
+            let mut params = TransformerParams::default();
+            params.n_vocab = 110;
+            let output_token_ids = [0, 1, 2, 3, 4, 5, 6, 7, 8];
+            let prompt = [98, 99];
+            let model =
+                fake_transformer_model(params, kv_cache_type, prompt.len(), &output_token_ids);
+
+            let mut generator = Generator::from_model(&model)?.with_prompt(&prompt);
+            assert!(generator.prev_tokens().is_empty());
+
+            generator.next();
+            assert_eq!(generator.prev_tokens(), [98, 99, 0]);
+
+            // Appended tokens are recorded when they are fed into the model.
+            generator.append_prompt(&[100]);
+            assert_eq!(generator.prev_tokens(), [98, 99, 0]);
+            generator.next();
+            assert_eq!(generator.prev_tokens(), [98, 99, 0, 100, 1]);
+
+            generator.append_prompt(&[101, 102]);
+            generator.process_prompt()?;
+            assert_eq!(generator.prev_tokens(), [98, 99, 0, 100, 1, 101, 102]);
+        }
 
         Ok(())
     }
